@@ -636,7 +636,7 @@ func c15Run(s c15Scene) (sig string, err error) {
 // One check name per campaign (same executor), so that each campaign keeps its
 // own minimal failing case.
 func init() {
-	for _, name := range []string{"render", "render-backgrounds", "render-scenes", "render-crowded"} {
+	for _, name := range []string{"render", "render-backgrounds", "render-scenes", "render-crowded", "render-seams"} {
 		vf.RegisterReplay("C15/"+name, func(raw json.RawMessage) (string, error) {
 			var s c15Scene
 			if err := json.Unmarshal(raw, &s); err != nil {
@@ -897,6 +897,30 @@ func TestC15(t *testing.T) {
 		}), 10, 40).Draw(rt, "objs")
 		s.Objs = c15Normalise(objs)
 		return s
+	})
+	// two crowded bands, most often the last and the first lines of the frame (state carried from the end of
+	// one frame into the next shows on line 0 from the second frame on) or two adjacent bands
+	seams := rapid.Custom(func(rt *rapid.T) c15Scene {
+		s := crowdedBase.Draw(rt, "base")
+		ya, yb := 144+rapid.IntRange(0, 15).Draw(rt, "bottom"), 9+rapid.IntRange(0, 8).Draw(rt, "top")
+		if rapid.IntRange(0, 3).Draw(rt, "adjacent") == 0 {
+			ya = rapid.IntRange(16, 150).Draw(rt, "band")
+			yb = ya + 8
+		}
+		band := func(y0 int, label string) []c15Obj {
+			return rapid.SliceOfN(rapid.Custom(func(rt *rapid.T) c15Obj {
+				return c15Obj{Y: uint8(y0 + rapid.IntRange(0, 3).Draw(rt, "dy")), X: uint8(8 + rapid.IntRange(0, 19).Draw(rt, "slot")*8 + rapid.IntRange(0, 2).Draw(rt, "dx")),
+					Tile: rapid.Byte().Draw(rt, "tile"), Attr: rapid.Byte().Draw(rt, "attr")}
+			}), 4, 12).Draw(rt, label)
+		}
+		s.Objs = c15Normalise(append(band(ya, "band-a"), band(yb, "band-b")...))
+		return s
+	})
+	c.Rapid("seams", 1200, 40000, func(rt *rapid.T) {
+		s := seams.Draw(rt, "scene")
+		nt := c15Classify(c, "seams/", &s)
+		c.Case("seams", vf.Hash(s), nt, func() interface{} { return s })
+		c15Check(c, rt, "render-seams", s)
 	})
 	c.Rapid("crowded", 1600, 60000, func(rt *rapid.T) {
 		s := crowded.Draw(rt, "scene")
